@@ -94,6 +94,23 @@ theorem compact_id_partial (t : Table) :
   simp only [compactTable, List.getElem?_map, hj, Option.map_some]
   rw [compactRow_get r t.cols i c hi hc]
 
+/-- Tables with several indexes: dump prints, and load/compact build, the indexes in the order
+"chosen one first, then the others in schema order". That order contains every index exactly
+once (so the dumped schema has the same indexes), and storing each built index AT ITS OWN
+POSITION (`ov[i] = …`) gives every index of the schema its own btree, whichever index is built
+first. Storing them in the order built (`append`) does not, as soon as the chosen index is not
+index 0 (`…_counter`; this is the seeded change C20-1). -/
+theorem index_order_complete (n first : Nat) (hf : first < n) :
+    (indexOrder n first).Nodup ∧ (∀ i, i ∈ indexOrder n first ↔ i < n) ∧
+    ∀ {α} (built : Nat → α),
+      placeByIndex n (indexOrder n first) built = (List.range n).map fun i => some (built i) :=
+  ⟨indexOrder_nodup n first,
+   fun i => ⟨indexOrder_lt n first i hf, indexOrder_mem n first i hf⟩,
+   fun built => placeByIndex_aligned n first hf built⟩
+
+theorem append_misaligns_counter :
+    placeByAppend (indexOrder 3 2) (fun i => i) ≠ (List.range 3).map fun i => some i := by decide
+
 -- non-vacuity
 example : squeeze [[1], [2], [], [4], []] ["a", "-", "b", "c", "-"] = [[1], [], [4]] := by decide
 example : liveIdx ["a", "-", "b", "c", "-"] 3 = 2 := by decide
@@ -114,5 +131,12 @@ theorem gen_constants :
     Gsu.Gen.Dump.dumpSqueezeCond = "hasdel" ∧
     Gsu.Gen.Dump.compactSqueezeCond = "hasdel||hasTrailingEmpty" := by
   decide
+
+/-- (G) `buildIndexes` stores each overlay at the position of its index (the premise of
+`index_order_complete`), and `LoadDatabase` waits for the index-building workers before it
+looks at their error value (otherwise a duplicate found late is not refused). -/
+theorem gen_load_structure :
+    Gsu.Gen.Dump.overlayPlacedByIndex = true ∧ Gsu.Gen.Dump.waitBeforeErrCheck = true :=
+  ⟨rfl, rfl⟩
 
 end Gsu.Props.C20
